@@ -100,6 +100,14 @@ theorem retained (E : Env) (ops : List Op) (hu : WellUsedHist E (init E) ops) (f
       rw [h.bound f (by omega)] at hp; cases hp
     exact ⟨p, o, hp, ht, isRoot_of_reg E _ f p hf hp, ho, fun to hto => jmp_inj E f _ _ (hto.symm.trans ht)⟩
 
+/-- non-vacuity of `retained`: a well-used history after which the entry of function 1 is not pristine -/
+example :
+    WellUsedHist exEnv (init exEnv)
+      [.replace 1 ⟨0, 0xc000012340#64, 19⟩ ⟨0x4a0000#64, .cb 7⟩, .apply 0, .gc (fun _ => false)] ∧
+    (run exEnv (init exEnv)
+      [.replace 1 ⟨0, 0xc000012340#64, 19⟩ ⟨0x4a0000#64, .cb 7⟩, .apply 0, .gc (fun _ => false)]).text 1 ≠ exEnv.pristine 1 := by
+  refine ⟨⟨trivial, ⟨1, ⟨0xc000012340#64, some 0⟩, rfl, rfl⟩, trivial, trivial⟩, by decide⟩
+
 /-- no history can make a call land on a collected or foreign object -/
 theorem never_wild (E : Env) (ops : List Op) (hu : WellUsedHist E (init E) ops) (f : Nat) :
     call E (run E (init E) ops) f ≠ .wild := by
